@@ -17,8 +17,13 @@ _ALPHABET = {"mode": "ascii", "salt": 0}
 ALPHABETS = ("ascii", "ascii", "mixed", "shifted")
 
 
+# further label styles, only used where a module asks for them by name (trees accept any hashable label):
+# multi-character strings and tuples
+EXTRA_ALPHABETS = ("words", "tuples", "ints")
+
+
 def set_alphabet(mode="ascii", salt=0):
-    _ALPHABET["mode"] = mode if mode in ("ascii", "mixed", "shifted") else "ascii"
+    _ALPHABET["mode"] = mode if mode in ("ascii", "mixed", "shifted") + EXTRA_ALPHABETS else "ascii"
     _ALPHABET["salt"] = int(salt)
 
 
@@ -30,6 +35,12 @@ def sym(i):
         return get_symbol(i)
     if mode == "shifted":
         return get_symbol(i + 47)
+    if mode == "words":
+        return "k%d" % (i + 10)
+    if mode == "tuples":
+        return ("bond", i)
+    if mode == "ints":
+        return 100 + i
     return get_symbol(i)
 
 
